@@ -217,7 +217,9 @@ class ModelCacheMixin:
     def split(self):
         results = super().split()
         for r in results:
-            r._models = {m.filter(r.variables) for m in self._models}
+            # in addition to what the part found out on its own: a part that is a single `x == c` has recorded the model
+            # x = c and marked x as enumerated, and must not be left with the marks but without the model
+            r._models |= {m.filter(r.variables) for m in self._models}
         return results
 
     def combine(self, others):
